@@ -1092,15 +1092,27 @@ impl Writer {
         // NackFrag is negative acknowledgement only, i.e. requesting missing fragments.
 
         let reader_guid = GUID::new(reader_guid_prefix, nackfrag.reader_id);
-        if let Some(reader_proxy) = self.lookup_reader_proxy_mut(reader_guid) {
-          reader_proxy.mark_frags_requested(nackfrag.writer_sn, &nackfrag.fragment_number_state);
+        // How many fragments does the requested sample have, if we still have it?
+        // If we do not, the Reader gets a GAP as a response to its ACKNACK.
+        let num_frags = self
+          .history_buffer
+          .get_by_sn(nackfrag.writer_sn)
+          .map(|cc| self.num_frags_and_frag_size(cc.data_value.payload_size()).0);
+        if let (Some(num_frags), Some(reader_proxy)) =
+          (num_frags, self.lookup_reader_proxy_mut(reader_guid))
+        {
+          reader_proxy.mark_frags_requested(
+            nackfrag.writer_sn,
+            &nackfrag.fragment_number_state,
+            num_frags,
+          );
+          self.timed_event_timer.set_timeout(
+            self.nackfrag_response_delay,
+            TimedEvent::SendRepairFrags {
+              to_reader: reader_guid,
+            },
+          );
         }
-        self.timed_event_timer.set_timeout(
-          self.nackfrag_response_delay,
-          TimedEvent::SendRepairFrags {
-            to_reader: reader_guid,
-          },
-        );
       }
     }
   }
